@@ -7,20 +7,35 @@ WorldHandle; bare: on a fresh World).  `Enable` sets dispatch_enabled = True; `A
 again through handle() and resource_map[key]; `ClearHandle`, `Disturb` (components of the first world mutate
 their list/dict arguments in place, the resource handles are cleared), `Rewrite` (the file now holds AltDesc)
 and `Reload` (the same handle object loads again) form the second round.  Observations are canonical tuples:
-objects are named by identity lookup (never by address), unordered things are sorted bags."""
+objects are named by identity lookup (never by address), unordered things are sorted bags.
+
+`Load(md, True)` first loads the *bystander*: the fixed description ByDesc of the spec, behind a second
+WorldFromFileHandle stored under 'by' in the same ResourceMap, loaded before the world under test and left
+disabled; `EnableBy` sets its dispatch_enabled.  Facet `bystander` = (its dispatch_enabled, what its own handlers
+heard so far, with ITS handle / world as the arguments of on_world_load); facet `log` of the world under test is
+everything any other recording object heard.
+
+Configuration: `ResourceMap.split_char` (a class attribute that "can be changed at any time") is '/' or ':' per
+behaviour, a stable function of the description and the load mode; keys are built with it, references in world
+files stay dotted.  reset() and finish() restore it, so that no behaviour leaks into the next."""
 import importlib
 import json
 import os
 import shutil
 import tempfile
+import zlib
 
 from ..replay import guarded, exc_name
+from ..tla import to_tla
 
 MOD = 'harness.adapters.wl_types'
 STR_IDS = {0: '', 1: 'hero', 2: '1'}       # <<"s", k>>; "" is falsy but an id; "1" is a string, not the integer 1
 AUTO = ('auto', 0)
 NOENT = ('-', 0)
 TAG = {'obj': '', 'res': 'res', 'handle': 'handle'}
+MODES = ('file1', 'file2', 'dict', 'bare')
+SEPS = ('/', ':')
+SEP0 = []       # ResourceMap.split_char as the library defines it (recorded by the first adapter of the process)
 
 
 def resolve(name):
@@ -41,11 +56,24 @@ def skey(x):
     return repr(x)
 
 
+def BY_ID(e):       # entity identifiers of the bystander are compared by value (they are all explicit or unheard)
+    return ('id', type(e).__name__, e)
+
+
 class WorldLoadAdapter:
-    def __init__(self, desper, shapes, altdesc=None, workdir=None):
+    def __init__(self, desper, shapes, altdesc=None, bydesc=None, workdir=None):
         self.desper = desper
         self.shapes = shapes
         self.altdesc = altdesc
+        self.bydesc = bydesc
+        if not SEP0:
+            SEP0.append(desper.ResourceMap.split_char)
+        # the bystander's objects are named by their class (distinct in ByDesc); model tags as Inst() assigns them
+        self.by_names = {}
+        if bydesc:
+            self.by_names = {('p', i + 1, 0): c['type'] for i, c in enumerate(bydesc['procs'])}
+            self.by_names.update({('c', e + 1, j + 1): c['type'] for e, ent in enumerate(bydesc['ents'])
+                                  for j, c in enumerate(ent['comps'])})
         # One mkdtemp directory per adapter, inside the check's scratch directory (removed by Result.finish);
         # the JSON file itself lives only for the duration of one Load.  (rmdir costs 3 ms here: not per step.)
         self.dir = tempfile.mkdtemp(prefix='verif-c15-', dir=workdir)
@@ -117,7 +145,7 @@ class WorldLoadAdapter:
         if s['k'] == 'str' and s['pre'] == '' and s['mk'] in TAG:
             if s['mk'] == 'obj':
                 return self.named[s['name']]
-            path = s['name'].replace('.', '/')
+            path = s['name'].replace('.', self.env['sep'])
             return rm[path] if s['mk'] == 'res' else rm.get(path)
         return self.json_of(tok)
 
@@ -167,9 +195,17 @@ class WorldLoadAdapter:
 
     # -- protocol -------------------------------------------------------------------------------------
     def reset(self, init):
+        self.desper.ResourceMap.split_char = SEP0[0]        # a behaviour that ended in a violation did not finish()
         self.set_desc(init['desc'])
+        self.variant = zlib.crc32(to_tla(init['desc']).encode())
         self.env = None
         self.mw.object_from_string.cache_clear()
+
+    def finish(self, stats):
+        self.desper.ResourceMap.split_char = SEP0[0]
+        if self.env:
+            k = 'behaviours_with_split_char_' + ('slash' if self.env['sep'] == '/' else 'colon')
+            stats.extra[k] = stats.extra.get(k, 0) + 1
 
     def set_desc(self, desc):
         self.desc = desc
@@ -179,13 +215,17 @@ class WorldLoadAdapter:
     def step(self, name, args, pre):
         env = self.env
         if name == 'Load':
-            return self.load(args[0])
+            return self.load(*args)
         if name == 'Reload':
             return self.observe(self.call_handle())
         if name == 'Enable':
             def enable():
                 env['world'].dispatch_enabled = True
             return self.observe(guarded(enable)[1])
+        if name == 'EnableBy':
+            def enable_by():
+                env['by']['world'].dispatch_enabled = True
+            return self.observe(guarded(enable_by)[1])
         if name == 'Access':
             def access():
                 return env['handle'](), env['rm'][env['key']]
@@ -228,21 +268,46 @@ class WorldLoadAdapter:
             json.dump(self.file_json(self.desc, sparse=(self.env['mode'] == 'file2')), f)
 
     def call_handle(self):
-        """handle() on a handle that is not cached: a load.  The callback log and the instance registry restart."""
-        del self.types.LOG[:]
-        del self.types.CREATED[:]
+        """handle() on a handle that is not cached: a load.  The callback log and the instance registry restart
+        (what the bystander's objects heard stays)."""
+        self.fresh_log()
         self.env['world'], ex = guarded(self.env['handle'])
         return ex
 
-    def load(self, md):
+    def fresh_log(self):
+        by = self.env['by']
+        self.types.LOG[:] = [c for c in self.types.LOG if by and id(c[0]) in by['ids']]
+        del self.types.CREATED[:]
+
+    def preload_bystander(self):
+        """A second world of the same map, loaded before the world under test and left as its handle returns it."""
+        env = self.env
+        path = os.path.join(self.dir, 'bystander.json')
+        if not os.path.exists(path):
+            with open(path, 'w') as f:
+                json.dump(self.file_json(self.bydesc, sparse=False), f)
+        h = self.desper.WorldFromFileHandle(path)
+        env['rm']['by'] = h
+        self.fresh_log()
+        world, ex = guarded(lambda: env['rm']['by'])
+        if ex is not None:
+            raise ex
+        objs = list(self.types.CREATED)         # kept alive: their ids identify them in the log
+        env['by'] = {'handle': h, 'world': world, 'objs': objs, 'ids': {id(o) for o in objs}}
+
+    def load(self, md, with_by=False):
         d = self.desper
+        sep = SEPS[(self.variant + MODES.index(md) + with_by) % 2]
+        d.ResourceMap.split_char = sep
         rm = d.ResourceMap()
         handles = {'r0': self.RecHandle('r0'), 'a.b': self.RecHandle('a.b')}
         rm['r0'] = handles['r0']
-        rm['a/b'] = handles['a.b']
-        key = 'worlds/w1' if md == 'file2' else 'w'
+        rm['a' + sep + 'b'] = handles['a.b']
+        key = 'worlds' + sep + 'w1' if md == 'file2' else 'w'
         self.env = env = {'handles': handles, 'rm': rm, 'mode': md, 'world': None, 'handle': None, 'key': key,
-                          'file': os.path.join(self.dir, 'world.json')}
+                          'file': os.path.join(self.dir, 'world.json'), 'sep': sep, 'by': None}
+        if with_by:
+            self.preload_bystander()
         if md in ('file1', 'file2'):
             self.write_file()       # stays (and may be rewritten) until the next behaviour overwrites it
             h = env['handle'] = d.WorldFromFileHandle(env['file'])
@@ -254,8 +319,7 @@ class WorldLoadAdapter:
             h.transform_functions.append(lambda hh, ww: d.populate_world_from_dict(ww, dd))
             rm[key] = h
             return self.observe(self.call_handle())
-        del self.types.LOG[:]
-        del self.types.CREATED[:]
+        self.fresh_log()
         world = env['world'] = d.World()
         _, ex = guarded(lambda: d.populate_world_from_dict(world, dd))
         return self.observe(ex)
@@ -276,26 +340,36 @@ class WorldLoadAdapter:
         obs['processors'] = [self.inst_real(p) for p in w.processors]
         obs['entities'] = sorted(((self.id_canon(e), sorted((self.inst_real(c) for c in w.get_components(e)), key=skey))
                                   for e in w.entities), key=skey)
+        by = self.env['by']
+        mine = [c for c in self.types.LOG if not (by and id(c[0]) in by['ids'])]
+        obs['log'] = self.heard(mine, self.env['handle'], w, self.id_canon, self.inst_real)
+        if by:
+            theirs = [c for c in self.types.LOG if id(c[0]) in by['ids']]
+            obs['bystander'] = (by['world'].dispatch_enabled,
+                                self.heard(theirs, by['handle'], by['world'], BY_ID, lambda o: type(o).__name__))
+        return obs
+
+    def heard(self, log, handle, world, idc, name):
+        """Per recording object, the callbacks it got in order; arguments by identity with `handle` / `world`."""
         calls = {}
-        for o, cb, args, kwargs in self.types.LOG:
+        for o, cb, args, kwargs in log:
             if kwargs or (cb == 'on_world_load' and len(args) != 2) or (cb == 'on_add' and len(args) not in (0, 2)):
                 c = (cb, 'BADARGS', len(args))
             elif cb == 'on_world_load':
-                c = (cb, args[0] is self.env['handle'], args[1] is w)
+                c = (cb, args[0] is handle, args[1] is world)
             elif args:
-                c = (cb, self.id_canon(args[0]), args[1] is w)
+                c = (cb, idc(args[0]), args[1] is world)
             else:
                 c = (cb, None, None)        # a processor's on_add takes no arguments
             calls.setdefault(id(o), (o, []))[1].append(c)
-        obs['log'] = sorted(((self.inst_real(o), tuple(cs)) for o, cs in calls.values()), key=skey)
-        return obs
+        return sorted(((name(o), tuple(cs)) for o, cs in calls.values()), key=skey)
 
     def expect(self, name, args, pre, post):
         if name == 'ClearHandle':
             return {'outcome': None, 'cached': False}
         if name in ('Disturb', 'Rewrite'):
             return {'outcome': None}
-        if name not in ('Load', 'Reload', 'Enable', 'Access'):
+        if name not in ('Load', 'Reload', 'Enable', 'EnableBy', 'Access'):
             return {}
         if post['pc'] == 'failed':
             return {'outcome': post['err']}
@@ -303,21 +377,28 @@ class WorldLoadAdapter:
         insts = {i['who']: i for i in x['procs']}
         for r in x['rows']:
             insts.update({i['who']: i for i in r['comps']})
-        calls = {}
-        for c in x['log']:
-            if c['cb'] == 'on_world_load':
-                t = (c['cb'], True, True)
-            elif c['ent'] == NOENT:
-                t = (c['cb'], None, None)
-            else:
-                t = (c['cb'], self.id_canon(self.py_id(c['ent'])), True)
-            calls.setdefault(c['who'], []).append(t)
+
+        def heard(log, name, idc):
+            calls = {}
+            for c in log:
+                if c['cb'] == 'on_world_load':
+                    t = (c['cb'], True, True)
+                elif c['ent'] == NOENT:
+                    t = (c['cb'], None, None)
+                else:
+                    t = (c['cb'], idc(self.py_id(c['ent'])), True)
+                calls.setdefault(c['who'], []).append(t)
+            return sorted(((name(who), tuple(cs)) for who, cs in calls.items()), key=skey)
+        by = {}
+        if 'absent' not in post['bw']:
+            by['bystander'] = (post['bw']['enabled'],
+                               heard(post['bw']['log'], lambda who: self.by_names.get(who, ('?', who)), BY_ID))
         return {
-            **({'same_world': True} if name == 'Access' else {}),
+            **({'same_world': True} if name == 'Access' else {}), **by,
             'outcome': None,
             'dispatch_enabled': x['enabled'],
             'processors': [self.inst_model(p) for p in x['procs']],
             'entities': sorted(((self.id_canon(self.py_id(r['id'])), sorted((self.inst_model(c) for c in r['comps']), key=skey))
                                 for r in x['rows']), key=skey),
-            'log': sorted(((self.inst_model(insts[who]) if who in insts else ('?', who), tuple(cs)) for who, cs in calls.items()), key=skey),
+            'log': heard(x['log'], lambda who: self.inst_model(insts[who]) if who in insts else ('?', who), self.id_canon),
         }
